@@ -174,6 +174,18 @@ fn check_cli(cfg: &Cfg, seq: &[u16], sink: &Sink) {
                 }
             }
         }
+        // Diff mode: every line added, plus a path argument that matches no file — the blocks are
+        // all modified and named by the diff, so report and status are those of the scan.
+        if !files.is_empty() && (seq.len() <= 1 || decode(seq[1]).severity == 0) {
+            sink.exec();
+            let diff: String = files.iter().map(|(n, t)| cli::new_file_diff(n, t)).collect();
+            let drun = cli::blockwatch(&cfg.bin, &repo.dir, &["nomatch/**"], Some(&diff), &[], 30);
+            let got = drun.diags().map(|d| observed(&d)).unwrap_or_default();
+            sink.outcome(format!("cli:diff+other-glob:status={:?}", drun.code));
+            if drun.panicked() || drun.code != Some(want_status) || got != expected {
+                sink.fail("C11:diff-mode-report-differs", format!("blocks {:?}: diff naming every file + path argument `nomatch/**`: expected status {want_status} and {expected:?}, got {got:?}\n{}", blocks, drun.summary()), input.clone());
+            }
+        }
         // `list`: one JSON object on stdout, exit 0, whatever the violations.
         let listed: Value = serde_json::from_str(&list.stdout).unwrap_or(Value::Null);
         let listed_blocks: usize = listed.as_object().map(|o| o.values().map(|v| v.as_array().map(|a| a.len()).unwrap_or(0)).sum()).unwrap_or(usize::MAX);
